@@ -95,6 +95,12 @@ def dims_rule(ctx, F):
 
 
 def run(ctx):
+    _run(ctx)
+    ctx.delegate("C16", ["C16.close"], "C20.closing",
+                 "geo-types -> shape -> geo-types keeps the coordinates of every ring: closing appends one copy of the first vertex only "
+                 "to a ring that is open", floor=2)
+
+def _run(ctx):
     F = ctx.facts("geo")
     ctx.rule("C20.dims", "for Point, PointM, PointZ and their reference impls, over the four orderings of m against NO_DATA: when "
                          "dim() reports n dimensions, nth_or_panic(i) returns field i of that dimension list without reaching a panic "
